@@ -35,6 +35,9 @@ def main(argv=None):
     try:
         repo = Repo(args.repo)
         res = Result(prop)
+        if getattr(repo, 'renamed', None):
+            res.note('renamed methods judged under their recorded names: %s' % ', '.join(
+                '%s (now %s)' % (o, n) for n, o in sorted(repo.renamed.items())))
         mod.check(repo, res, tier)
         floors = getattr(mod, 'FLOORS', {})
         counts = {}
